@@ -287,3 +287,21 @@ def bounded(K):
     K.bounded('gauss', ok, {'evaluations': r['n'] if st == 'ok' else 0, 'distinct_nontrivial': r['distinct'] if st == 'ok' else 0,
                             'bound': 'sps in {8,9,16,33} (thorough: up to 128), T in [sps/2, 2 sps], m in 1..4, two (Vout,bias) pairs, isolated 1',
                             'samples': [{'sps': 8, 'T': 8, 'm': 1}], 'failures': r if st == 'ok' else st})
+
+
+def frame_runs(K):
+    n, sps, k, N = z3.Ints('n sps k N')
+    Vout, bias = z3.Reals('Vout bias')
+    fd, fs_ = fn(K, 'devices.DAC'), fn(K, 'devices.SAMPLER')
+    out = []
+    for shape in ('nrz', 'rz'):
+        def run(ex, shape=shape):
+            mk_gv(ex, sps=sps)
+            return ex.call_fn(fd, [mk_binseq(ex, 'bits', n)], {'Vout': Vout, 'bias': bias, 'pulse_shape': shape})
+        out.append((f'devices.DAC[{shape}]', run, [n >= 1, sps >= 1], None))
+    for noise in (False, True):
+        def run(ex, noise=noise):
+            mk_gv(ex, sps=sps)
+            return ex.call_fn(fs_, [mk_esig(ex, 'x', N, noise=noise), k], {})
+        out.append((f'devices.SAMPLER[noise={noise}]', run, [N >= 1, sps >= 1, k >= 0, k < sps], None))
+    return out
